@@ -214,8 +214,9 @@ func (e *exec) run(rec *fw.Rec, name string, bs match.Bindings, props core.StepP
 
 func Run(cfg fw.Config, rec *fw.Rec) {
 	rec.Rule = "22 polluting scripts (in-place mutation of _.bindings at depth 1-4, of _.props incl. nested maps and lists and Go-typed containers (map[string]string, []string, []map[string]interface{}), globals with and without var, Object/Array prototype and JSON/Math/Object.keys patches, replaced environment members, environment members reached by enumeration / computed keys / escaped identifiers, pollution followed by a throw) run (on caller bindings of 10 shapes: nested objects, flat with arrays only, arrays of arrays / objects, Go-typed numbers, Go-typed containers such as []string and map[string]string, nested NaN / infinite numbers, structured permanent ('!') bindings) in sequences of length 1-5 before a probe script that reports everything observable (globals, prototypes, built-ins, environment keys, props, bindings); the probe's report must equal its report in a clean run; a self-probe pollutes and reports leftovers of its own earlier executions; the caller's bindings and props are deep-snapshotted around every execution (also through Spec.Step); a tally script run with absent and with empty step properties must find _.props empty every time (sequentially, after every polluter, from 32 goroutines); 16-64 goroutines run one compiled source concurrently (race detector on); non-trivial = polluter sequence followed by a clean probe; distinct by sequence"
-	rec.Required = []string{"probe_after_polluters_clean", "self_probe_clean", "concurrent_rounds", "step_props_intact", "snapshots_intact", "absent_or_empty_props_private_per_execution"}
+	rec.Required = []string{"extended_helpers_from_many_goroutines", "probe_after_polluters_clean", "self_probe_clean", "concurrent_rounds", "step_props_intact", "snapshots_intact", "absent_or_empty_props_private_per_execution"}
 	rec.Assume = []string{"the race detector reports only races that occur in the interleavings produced", "probe observability: what the probe script can enumerate (globals by name, prototypes, built-ins used by the DSL, environment keys, props, bindings)"}
+	extendedHelpersConcurrently(rec)
 	e := newExec(rec)
 	clean, ok := e.run(rec, "probe", mkBindings(), mkProps(), "clean probe")
 	if !ok {
